@@ -42,6 +42,26 @@ CLAIMS = {
   text="Decides the property for all suffixes as a non-interference rule: in decode the buffer parameter is modified only by exactly one Header::decode_bytes(buf, true) (prefix-local and exactly advancing by alloy-rlp's contract), every later read works on the payload it returned, and the only other accepted uses of *buf are the two len() reads whose difference around that call measures the consumed item; any other inspection of the buffer (whole-buffer or remaining-length tests, is_empty, first(), indexing, handing it on) is reported with its site as a dependence on bytes after the record.",
   note="Trusts: MIR fidelity; alloy-rlp Header::decode_bytes contract; Vec<Enr>::decode is alloy code calling this decode on the shrinking payload.",
   design="3/C13"),
+ "C12": dict(
+  technique="abstract-string analysis of format templates + MIR shape, engine-constant and post-decode emptiness rules",
+  text="Decides the structural content of the property: to_base64() is the literal \"enr:\" followed by Display of URL_SAFE_NO_PAD.encode(a fresh buffer filled only by the record's own Encodable::encode), and that encode is list-header(len(stream))||[signature, seq, pairs]; Display writes exactly to_base64(); Serialize is serialize_str of it; from_str gives the base64 decoder either the parameter or the parameter minus a prefix equal to that same literal under a starts_with guard of the same length (no trim, case mapping, replacement or repeated stripping), with the same engine constant; it returns Ok only with decode's record and only when the slice handed to decode is proved empty afterwards; Deserialize hands the JSON string unchanged to from_str. Not decided: the base64 crate's engine strictness (padding, alphabet, trailing bits) - library behaviour, partly pinned by two tests.",
+  note="Trusts: MIR fidelity; core::fmt template byte-code layout of this toolchain (documented in library/core/src/fmt/mod.rs); base64 0.22 URL_SAFE_NO_PAD semantics; decode's own advance contract is C13.",
+  design="3/C12"),
+ "C15": dict(
+  technique="MIR conjunction/field-set analysis of eq and hash + shape rules",
+  text="Decides: == returns true only on paths where self.f == other.f was established for every f in {seq, node_id, signature} (same field both sides, no inverted test); Hash feeds, unconditionally and into the caller's hasher, only fields that == compares (so equal records hash equally); Clone copies each field from the same field of self; compare_content is rlp_content(self) == rlp_content(other) where rlp_content is the framed [seq, every pair of the whole map] stream without the signature. `Equal implies identical pairs and encoding` is reduced to C05 (the signature binds the content); reflexivity/symmetry/transitivity follow from field-wise == on u64, [u8;32] and Vec<u8>.",
+  note="Trusts: MIR fidelity; std PartialEq/Hash of u64, arrays, Vec; C05's invariant for the content clause.",
+  design="3/C15"),
+ "C16": dict(
+  technique="MIR guard-set analysis (parse length), projection-shape rules, abstract-string analysis of the hex forms",
+  text="Decides: the set of input lengths for which NodeId::parse reaches Ok is exactly {32} and the id is a copy of the whole input; new/raw/From<[u8;32]>/AsRef/PartialEq<[u8;32]>/From<Enr>/From<&Enr> are pure projections or copies of the raw field; the serde form is serialize_str of \"0x\" + hex::encode(raw) and deserialisation is <[u8;32] as FromHex>::from_hex of the string minus at most one \"0x\" prefix (no trimming or repeated stripping), both reached from the derived impls on the raw [u8;32]; Debug is \"0x\" + hex::encode(raw); the data-dependent parts of Display are exactly hex of bytes 0..2 and 30..32 (literal separators are unconstrained). Not decided: the hex crate (lower-case output, 2 digits per byte, 64-digit FromHex).",
+  note="Trusts: MIR fidelity; hex 0.4 contracts; serde derive routes `with =` modules as generated.",
+  design="3/C16"),
+ "C17": dict(
+  technique="MIR must-pass-through/order rule for zeroize + shape rules for parser, variant and delegation",
+  text="Decides: secp256k1_from_bytes / ed25519_from_bytes take &mut [u8], apply exactly one library secret-key parser (k256 SigningKey::from_slice, ed25519 SigningKey::try_from) to the whole parameter, return exactly that key in the matching CombinedKey variant, and on every path to Ok call Zeroize::zeroize on the whole parameter after the parser call (dominance order); encode() returns to_bytes() of the variant's own key and public() the variant's own public key. Not decided: which 32-byte strings the libraries accept (group-order boundary) and the public-key derivation arithmetic.",
+  note="Trusts: MIR fidelity; zeroize overwrites with zeros; k256 / ed25519-dalek parsers. Only configurations with both k256 and ed25519 compile CombinedKey (at least one must be analysed).",
+  design="3/C17"),
 }
 
 checks = []
